@@ -6,8 +6,8 @@ ids="$@"
 [ -z "$ids" ] && ids=$(python3 -c "import json; print(' '.join(c['property_id'] for c in json.load(open('MANIFEST.json'))['checks']))")
 for id in $ids; do
   s=$(date +%s)
-  out=$(./check $id --tier $tier 2>&1 | grep -v condarc)
-  rc=$?
+  out=$(./check $id --tier $tier 2>&1; echo "__rc=$?")
+  rc=$(echo "$out" | grep -o '__rc=[0-9]*' | cut -d= -f2)
   e=$(( $(date +%s) - s ))
   echo "== $id rc=$rc ${e}s  KNOWN=$(echo "$out" | grep -c '^KNOWN-FINDING') VIOL=$(echo "$out" | grep -c '^VIOLATION')"
   echo "$out" | grep -E "^VIOLATION|INTERNAL|Traceback|Error" | cut -c1-200 | head -5
